@@ -524,6 +524,14 @@ func (f *Firewall) inConns(fp firewall.Packet, h *HostInfo, caPool *cert.CAPool,
 		return false
 	}
 
+	if time.Now().After(c.Expires) {
+		// The flow has been idle for longer than its timeout. The timer wheel only turns when other flows
+		// are added or evicted, so an expired entry can still be sitting here; it must not be honoured.
+		delete(conntrack.Conns, fp)
+		conntrack.Unlock()
+		return false
+	}
+
 	if c.rulesVersion != f.rulesVersion {
 		// This conntrack entry was for an older rule set, validate
 		// it still passes with the current rule set
